@@ -53,6 +53,100 @@ let c10 kvs =
   | Err _ -> print_string "err\n"
   | Panic _ -> print_string "panic\n"
 
+(* ------------------------------------------------------------------ C13 *)
+let rec nat_of_int n = if n <= 0 then O else S (nat_of_int (n - 1))
+let rec int_of_nat = function O -> 0 | S k -> 1 + int_of_nat k
+
+let bytes_of_hex s =
+  let n = String.length s / 2 in
+  List.init n (fun i -> n_of_int (int_of_string ("0x" ^ String.sub s (2 * i) 2)))
+
+let fnv (bs : n list) =
+  let h = ref 0x811c9dc5 in
+  List.iter (fun b -> h := ((!h lxor int_of_n b) * 0x01000193) land 0xFFFFFFFF) bs;
+  Printf.sprintf "%d:%08x" (List.length bs) !h
+
+(* "ooe s3,i/e" style: pending outcomes then '/' then the default *)
+let stream_of_text t =
+  let i = String.index t '/' in
+  let p = String.sub t 0 i and d = String.sub t (i + 1) (String.length t - i - 1) in
+  let out = ref [] in
+  let j = ref 0 in
+  let n = String.length p in
+  while !j < n do
+    (match p.[!j] with
+    | 'o' -> out := FOk :: !out; incr j
+    | 'e' -> out := FErr :: !out; incr j
+    | 'i' -> out := FIntr :: !out; incr j
+    | 's' ->
+        let k = String.index_from p !j ',' in
+        out := FShort (nat_of_int (int_of_string (String.sub p (!j + 1) (k - !j - 1)))) :: !out;
+        j := k + 1
+    | c -> failwith (Printf.sprintf "bad fault char %c" c))
+  done;
+  { pending = List.rev !out; dflt_err = (d = "e") }
+
+let sched_of kvs = { sw = stream_of_text (get kvs "w"); sf = stream_of_text (get kvs "f"); ss = stream_of_text (get kvs "s"); sr = stream_of_text (get kvs "r") }
+
+let stack_of = function "raw" -> SRaw | "buf" -> SBuf (nat_of_int 8192) | "buf16" -> SBuf (nat_of_int 16) | s -> failwith ("bad stack " ^ s)
+
+let prog_of_text t =
+  List.map
+    (fun item ->
+      let rest = String.sub item 1 (String.length item - 1) in
+      match item.[0] with
+      | 'a' -> WWriteAll (bytes_of_hex rest)
+      | 'l' -> WWriteLoop (bytes_of_hex rest)
+      | 'f' -> WFlush
+      | 'c' -> WSeekCur
+      | 's' -> WSeek (nat_of_int (int_of_string rest))
+      | c -> failwith (Printf.sprintf "bad op %c" c))
+    (split_on ',' t)
+
+let programs : (string, stack * wop list) Hashtbl.t = Hashtbl.create 16
+
+let c13p kvs = Hashtbl.replace programs (get kvs "id") (stack_of (get kvs "stack"), prog_of_text (get kvs "prog"))
+
+let c13r kvs =
+  let st, p = Hashtbl.find programs (get kvs "id") in
+  let r, d = d_run_writer st p (sched_of kvs) in
+  Printf.printf "%s %s\n" (match r with Ok _ -> "ok" | Err _ -> "err" | Panic _ -> "panic") (fnv d)
+
+let oblocks_of t =
+  List.map
+    (fun item ->
+      match String.split_on_char ':' item with
+      | [ ty; size; uc ] ->
+          let ty = int_of_string ty and size = int_of_string size and uc = int_of_string uc in
+          if ty = 1 then OPadding (n_of_int size)
+          else
+            let k =
+              match ty with
+              | 2 -> KApplication | 3 -> KSeekTable | 4 -> KVorbisComment | 5 -> KCuesheet | 6 -> KPicture
+              | _ -> failwith ("bad block type " ^ item)
+            in
+            OOther (k, (n_of_int size, if uc < 0 then None else Some (n_of_int uc)))
+      | _ -> failwith ("bad block " ^ item))
+    (split_on ';' t)
+
+(* c13u fixed=<0|1> off=<audio offset> len=<file length> si=<size> before=<blocks> after=<blocks|none> rb=<0|1>
+        w=.. f=.. s=.. r=..  w2=.. f2=..  -> "<class> <len1> <len2>" *)
+let c13u kvs =
+  let quiet = "/o" in
+  let g k = let v = get kvs k in if v = "" then quiet else v in
+  let sc1 = sched_of kvs in
+  let sc2 = { sw = stream_of_text (g "w2"); sf = stream_of_text (g "f2"); ss = stream_of_text quiet; sr = stream_of_text quiet } in
+  let after = if get kvs "after" = "none" then None else Some (oblocks_of (get kvs "after")) in
+  let (r, l1), l2 =
+    d_update_io (get kvs "fixed" = "1") (nat_of_int 8192) (nat_of_int (int_of_string (get kvs "off")))
+      (nat_of_int (int_of_string (get kvs "len")))
+      (n_of_int (int_of_string (get kvs "si")), None)
+      (oblocks_of (get kvs "before")) after (get kvs "rb" = "1") sc1 sc2
+  in
+  Printf.printf "%s %d %d\n"
+    (match r with Ok true -> "ok:true" | Ok false -> "ok:false" | Err _ -> "err" | Panic _ -> "panic")
+    (int_of_nat l1) (int_of_nat l2)
+
 let () =
   try
     while true do
@@ -61,6 +155,9 @@ let () =
         let kvs = kv line in
         match List.hd (split_on ' ' line) with
         | "c10" -> c10 kvs
+        | "c13p" -> c13p kvs
+        | "c13r" -> c13r kvs
+        | "c13u" -> c13u kvs
         | other -> Printf.printf "unknown-case-kind %s\n" other
       end
     done
